@@ -368,6 +368,20 @@ def run_trace(events_path, name="trace", spec="trace/Trace_Events", workers=8, t
     return n, bad, r
 
 
+def run_drive_parse(name, n, seed_offset=0):
+    """Random texts (valid references, near misses, IP shapes, ill-formed UTF-8) through the real parsers."""
+    wdir = os.path.join(WORK, "drive", name)
+    shutil.rmtree(wdir, ignore_errors=True)
+    os.makedirs(wdir)
+    out = os.path.join(wdir, "events.ndjson")
+    r = sh([os.path.join(BIN, "drive"), "parse", str(seed() + seed_offset), str(n), out],
+           stdout=subprocess.PIPE, stderr=subprocess.PIPE, timeout=3600)
+    if r.returncode != 0:
+        raise ToolError("drive parse failed: " + r.stderr.decode(errors="replace")[-2000:])
+    log("drive  %-26s %9s parse events recorded" % (name, r.stdout.decode().strip()))
+    return out
+
+
 def run_drive(name, histories, steps, seed_offset=0):
     """Random edit histories on the real buffers (harness binary `drive`), recorded as events."""
     wdir = os.path.join(WORK, "drive", name)
